@@ -53,7 +53,7 @@ def exhaustive_groups(small):
     consts = T.universe_for(rng, tys, per_type=1, extra=0)
     consts = consts[:120]
     n1 = len([t for t in tys if T.ty_depth(t) <= 1])
-    step = 1 if not small else 5
+    step = 2 if not small else 5
     lists = [[i, j] for i in range(0, n1, step) for j in range(0, n1, step)]
     return {"tys": tys, "consts": consts, "lists": lists, "pairs": True, "stream": "exh"}
 
@@ -305,7 +305,7 @@ def run(ck):
         g["pairs"] = True
         groups.append(g)
     ncorpus = len(groups)
-    nmain, nwild = ck.n(24, 700), ck.n(8, 250)
+    nmain, nwild = ck.n(24, 300), ck.n(8, 120)
     for _ in range(nmain):
         depth = rng.choice([1, 2, 2, 3, 3, 4])
         groups.append(make_group(rng, rng.choice([8, 10, 12]), depth, False, "nice-by-construction"))
@@ -347,7 +347,7 @@ def run(ck):
         "exhaustive": exhaustive,
         "exhaustive_scope": ("every ordered pair of the %d type expressions of the depth-2 grammar "
                              "(checks/types_common.grammar_depth2) x %d constants; both bounds of every ordered pair "
-                             "of its depth<=1 part (%d lists)" % (len(ex["tys"]), len(ex["consts"]), len(ex["lists"])))
+                             "of every second type of its depth<=1 part (%d lists)" % (len(ex["tys"]), len(ex["consts"]), len(ex["lists"])))
         if exhaustive else "",
         "samples": stats.samples,
     }
